@@ -110,24 +110,24 @@ inductive Op (α : Type) where
   | mask (m : List Bool)
   | concat (other : Cols α)          -- `np.concatenate([t, other])`
   | concatL (other : Cols α)         -- `np.concatenate([other, t])`
-  | sortBy (j : Nat)
+  | sortBy (j : Nat) (key : α → Int)   -- what `np.argsort` orders the field by (value / text rank)
   | replace (j : Nat) (c : List α)
   | addFields (new : Cols α)
 
-def step {α} (key : α → Int) (cols : Cols α) : Op α → Option (Cols α)
+def step {α} (cols : Cols α) : Op α → Option (Cols α)
   | .take ix => take ix cols
   | .mask m => mask m cols
   | .concat o => if wfB o && o.length == cols.length then some (concat cols o) else none
   | .concatL o => if wfB o && o.length == cols.length then some (concat o cols) else none
-  | .sortBy j => sortBy key j cols
+  | .sortBy j key => sortBy key j cols
   | .replace j c => replaceCol j c cols
   | .addFields new => addFields new cols
 
-def run {α} (key : α → Int) : List (Op α) → Cols α → Option (Cols α)
+def run {α} : List (Op α) → Cols α → Option (Cols α)
   | [], cols => some cols
   | op :: ops, cols =>
-    match step key cols op with
-    | some c' => run key ops c'
+    match step cols op with
+    | some c' => run ops c'
     | none => none
 
 end C19
